@@ -413,7 +413,7 @@ def obligations(tier):
                    desc="a collection built with two variant collections maps each haplotype to exactly the genes its variant lies in, each lifted onto that haplotype "
                         "alone (spliced sequence = reference gene with that one edit)", bounds="24-nt reference, two single-exon genes (+/-), one variant per haplotype at "
                         "every offset%s, spans 1..2, alt lengths 0..3 (realised)" % (" (a third / half of the offsets, span 1 in the quick tier)" if quick else ""),
-                   examples=[dict(a=3, ra=1, ia=2, b=13, rb=2, ib=0), dict(a=3, ra=1, ia=2, b=5, rb=1, ib=1)]))
+                   examples=[dict(a=3, ra=1, ia=2, b=13, rb=1, ib=0), dict(a=3, ra=1, ia=2, b=5, rb=1, ib=1)]))
     for nv in (1, 2):
         for kind in ("location", "feature", "transcript", "cds", "coding_tx"):
             for chunked in ((False,) if quick and kind != "location" else (False, True)):
